@@ -1077,7 +1077,9 @@ class PointsTo:
         if d.startswith("torch."):
             return self.call_torch(d, args, kwargs, node, fr)
         if method_on_opaque:
-            return {("X", d + "()")}
+            # results of calls on opaque values stay opaque; keep the name bounded (no unbounded growth through recursion)
+            root = d.split("()")[0]
+            return {("X", root + "()" if "()" in d else d + "()")}
         head = d.split(".")[0]
         if head in ("json", "math", "time", "fractions", "enum", "logging", "operator", "typing", "abc", "collections"):
             return set()
